@@ -97,6 +97,20 @@ def check_C01(tier, seed):
 import relharness
 
 
+def replay(path):
+    """Re-run a saved counterexample against parsers regenerated from the current tree."""
+    with open(path) as f:
+        doc = json.load(f)
+    os.environ["VERIF_REPLAY_DOC"] = os.path.abspath(path)
+    fn = globals().get("check_" + doc["property"])
+    try:
+        fn("thorough", 0)
+    except catcheck.ReplayDone as r:
+        print("replay: assertion %s on the current tree" % ("FAILS" if r.failed else "holds"))
+        return 1 if r.failed else 0
+    return 2
+
+
 def count_exprs(g):
     n = [0]
     def f(e):
@@ -153,3 +167,61 @@ def check_C15(tier, seed):
             REL_FUNCS)
     rep.assumptions += ["classes outside the catalogue and inputs longer than the bound are outside the claim"]
     return rep.finish()
+
+
+def run_ref_property(prop, tier, seed, cat, hprops, Nq, Nt, tq=60, tt=900, flagsets_q=("std",), flagsets_t=("std", "opt"),
+                     unconstrained=False, bounds_extra=None, assumptions=(), file_name="", level="model_checking", quick_stride=1,
+                     post=None):
+    rep = Report(prop, tier, seed, level)
+    w = Work()
+    w.build_pigeon()
+    quick = tier == "quick"
+    N, tmo = (Nq, tq) if quick else (Nt, tt)
+    fss = flagsets_q if quick else flagsets_t
+    cases = []
+    use = cat[::quick_stride] if quick else cat
+    for g in use:
+        for fs in fss:
+            cases.append(ref_case(g, hprops, flagset=fs, unconstrained=unconstrained, file_name=file_name))
+    twin = ref_case(cat[0], ["TWIN"], suffix="_twin")
+    catcheck.prepare(w, cases + [twin])
+    agg = catcheck.explore(w, rep, cases, prop, r"Harness_%s$" % hprops[0], N, tmo, "ref", seed=seed,
+                           validate_pkgs=6 if quick else 24)
+    twin_check(w, rep, twin)
+    b = {"input_bytes_max": N, "grammars": len(cases), "flag_sets": list(fss), "ssa_step_limit_per_path": 2000000,
+         "alphabet": "all 256 byte values" if unconstrained else "terminal bytes of the grammar (both cases) + \\n z 0xC3 0xA9"}
+    b.update(bounds_extra or {})
+    std_cov(rep, agg, cases, b,
+            "one state = one explored path (class of inputs driving the generated parser and the reference the same way); distinct_nontrivial = paths completed with all assertions decided",
+            RUNTIME_FUNCS)
+    rep.assumptions += ["inputs longer than the bound and grammars outside the catalogue are outside the claim",
+                        "refpeg (ref/refpeg.go, DESIGN.md Appendix B) is the meaning of the documented semantics"] + list(assumptions)
+    if post:
+        post(rep, w, agg)
+    return rep.finish()
+
+
+def check_C12(tier, seed):
+    return run_ref_property("C12", tier, seed, cores.fail_catalogue() + cores.pair_core()[::4], ["C12"], 3, 5, tq=90)
+
+
+def check_C17(tier, seed):
+    return run_ref_property("C17", tier, seed, cores.utf8_catalogue(), ["C17"], 3, 4, unconstrained=True, tq=120, tt=1800,
+                            bounds_extra={"AllowInvalidUTF8": "symbolic"})
+
+
+def check_C02(tier, seed):
+    return run_ref_property("C02", tier, seed, cores.context_catalogue() + cores.composites(), ["C02"], 3, 5)
+
+
+def check_C05(tier, seed):
+    return run_ref_property("C05", tier, seed, cores.state_catalogue(), ["C05"], 3, 4, flagsets_q=("std", "opt"), quick_stride=1)
+
+
+def check_C14(tier, seed):
+    return run_ref_property("C14", tier, seed, cores.throw_catalogue(), ["C14"], 3, 5, flagsets_q=("std", "opt"))
+
+
+def check_C11(tier, seed):
+    return run_ref_property("C11", tier, seed, cores.fault_catalogue(), ["C11"], 2, 4, file_name="f.txt", flagsets_q=("std",),
+                            bounds_extra={"fault_plan": "symbolic: per block slot, first two invocations in {none, errA, errB, panic}", "Recover": "symbolic"})
